@@ -7,7 +7,9 @@ package simrt
 
 import (
 	"fmt"
+	"hash/fnv"
 	"math"
+	"math/rand/v2"
 	"runtime"
 	"runtime/debug"
 	"sort"
@@ -47,6 +49,10 @@ type Config struct {
 	MaxSteps   int64         // controller steps before the run is cut (not a violation)
 	StuckAfter time.Duration // simulated idle time after which the run is declared stuck
 	KeepEvents int
+	// CoRelease: release a tape-chosen SET of parked tasks per round instead of
+	// one (race-detector mode: segments released in the same round are concurrent
+	// unless the program's own synchronisation orders them).
+	CoRelease bool
 }
 
 type Task struct {
@@ -67,11 +73,16 @@ type Task struct {
 	idleOnly bool
 	deadline time.Duration // simulated time at which a timed wait expires; 0 = none
 	timedOut bool
+	running  atomic.Bool // co-release mode: released in the current round
 	parkSeq  int64
 	done     bool
 	spawned  int
 	// Holding lists descriptions of sim locks held (diagnostics).
 	Holding map[string]int
+	// co-release mode: task-private counters, PRNG and id sequence
+	probes map[string]int64
+	rng    *rand.Rand
+	idSeq  int
 }
 
 type Event struct {
@@ -88,7 +99,7 @@ type Sim struct {
 	mu     sync.Mutex
 	parked []*Task
 	tasks  []*Task
-	byG    sync.Map // uintptr -> *Task
+	byG    gTable // goroutine -> *Task, lock-free: no cross-task synchronisation beyond parent->child
 
 	cur  atomic.Pointer[Task]
 	wake chan struct{}
@@ -107,6 +118,7 @@ type Sim struct {
 	stopping  atomic.Bool
 	idSeq     int
 	parkCount int64
+	logMu     sync.Mutex // co-release mode: Log/Probe/Fault/Choose/NextID may be called concurrently
 
 	// Probes are named reach counters ("this rare thing happened").
 	Probes map[string]int64
@@ -131,11 +143,57 @@ var active atomic.Pointer[Sim]
 // Active returns the running simulation, or nil.
 func Active() *Sim { return active.Load() }
 
-func (s *Sim) taskOfG() *Task {
-	if v, ok := s.byG.Load(getg()); ok {
-		return v.(*Task)
+func (s *Sim) taskOfG() *Task { return s.byG.load(getg()) }
+
+// gTable is an open-addressing hash table keyed by goroutine pointer. Inserts use
+// CAS on the key slot, lookups plain atomic loads, so a lookup synchronises only
+// with the insert of the slots it probes (the spawn of that very task), never
+// with other tasks' activity - which matters under the race detector.
+const gTableSize = 1 << 13
+
+type gTable struct {
+	keys [gTableSize]atomic.Uintptr
+	vals [gTableSize]atomic.Pointer[Task]
+}
+
+func gHash(g uintptr) int { return int((g>>6)*0x9E3779B1) & (gTableSize - 1) }
+
+func (t *gTable) store(g uintptr, v *Task) {
+	for i, n := gHash(g), 0; n < gTableSize; i, n = (i+1)&(gTableSize-1), n+1 {
+		k := t.keys[i].Load()
+		if k == g || (k == 0 && t.keys[i].CompareAndSwap(0, g)) {
+			t.vals[i].Store(v)
+			return
+		}
+	}
+	panic("simrt: task table full")
+}
+
+func (t *gTable) load(g uintptr) *Task {
+	for i, n := gHash(g), 0; n < gTableSize; i, n = (i+1)&(gTableSize-1), n+1 {
+		k := t.keys[i].Load()
+		if k == g {
+			return t.vals[i].Load()
+		}
+		if k == 0 {
+			return nil
+		}
 	}
 	return nil
+}
+
+// remove keeps the key slot (goroutine pointers are reused by the runtime) and clears the value.
+func (t *gTable) remove(g uintptr) {
+	for i, n := gHash(g), 0; n < gTableSize; i, n = (i+1)&(gTableSize-1), n+1 {
+		k := t.keys[i].Load()
+		if k == g {
+			t.vals[i].Store(nil)
+			return
+		}
+		if k == 0 {
+			return
+		}
+	}
 }
 
 // Current returns the calling goroutine's task, or nil outside a run.
@@ -172,6 +230,9 @@ func (s *Sim) mixStr(str string) {
 // Log records a canonical event: it is hashed into the run fingerprint and kept
 // in a ring for the replay file. It never draws from a tape or reads a real clock.
 func (s *Sim) Log(kind, what string) {
+	if s.cfg.CoRelease {
+		return // no shared log under the race detector: it would order every task with every other
+	}
 	tid := -1
 	if t := s.cur.Load(); t != nil {
 		tid = t.ID
@@ -208,11 +269,45 @@ func (s *Sim) Events() []Event {
 	return out
 }
 
-func (s *Sim) Probe(name string) { s.Probes[name]++ }
-func (s *Sim) Fault(kind string) { s.Faults[kind]++; s.Log("fault", kind) }
+func (s *Sim) Probe(name string) {
+	if s.cfg.CoRelease {
+		if t := s.taskOfG(); t != nil {
+			t.probes[name]++ // task-private, merged by the controller at the end
+		}
+		return
+	}
+	s.Probes[name]++
+}
+
+func (s *Sim) Fault(kind string) {
+	if s.cfg.CoRelease {
+		if t := s.taskOfG(); t != nil {
+			t.probes["fault:"+kind]++
+		}
+		return
+	}
+	s.Faults[kind]++
+	s.Log("fault", kind)
+}
+
+// CoRelease reports whether the active simulation runs in co-release (race detector) mode.
+func CoRelease() bool {
+	s := active.Load()
+	return s != nil && s.cfg.CoRelease
+}
+
+func (s *Sim) hasBaton(t *Task) bool {
+	if s.cfg.CoRelease {
+		return t.running.Load()
+	}
+	return s.cur.Load() == t
+}
 
 // NoteAcquire feeds the interleaving signature (order of critical sections).
 func (s *Sim) NoteAcquire(t *Task, site string) {
+	if s.cfg.CoRelease {
+		return
+	}
 	h := s.ilHash
 	h ^= uint64(t.ID + 1)
 	h *= 1099511628211
@@ -224,13 +319,23 @@ func (s *Sim) NoteAcquire(t *Task, site string) {
 }
 
 // Choose draws from a tape.
-func (s *Sim) Choose(tape string, n int) int { return s.Tapes.Choose(tape, n) }
+func (s *Sim) Choose(tape string, n int) int {
+	if s.cfg.CoRelease {
+		if n <= 1 {
+			return 0
+		}
+		if t := s.taskOfG(); t != nil {
+			return t.rng.IntN(n) // task-private PRNG (seed, task name): no shared tape under the race detector
+		}
+	}
+	return s.Tapes.Choose(tape, n)
+}
 
 // ---------------------------------------------------------------------------
 // task side
 
 func (s *Sim) newTask(parent *Task, site string) *Task {
-	t := &Task{resume: make(chan struct{}), Site: site, Holding: map[string]int{}}
+	t := &Task{resume: make(chan struct{}), Site: site, Holding: map[string]int{}, probes: map[string]int64{}}
 	if parent != nil {
 		parent.spawned++
 		t.Name = fmt.Sprintf("%s.%d", parent.Name, parent.spawned)
@@ -244,12 +349,18 @@ func (s *Sim) newTask(parent *Task, site string) *Task {
 	if s.cfg.Policy == PCT {
 		t.prio = 1000 + s.Choose("sch", 1000)
 	}
+	if s.cfg.CoRelease {
+		h := fnv.New64a()
+		h.Write([]byte(t.Name))
+		t.rng = rand.New(rand.NewPCG(s.Tapes.Seed, h.Sum64()))
+	}
 	return t
 }
 
 // park blocks the calling task until the controller releases it.
 func (s *Sim) park(t *Task, site string) {
 	t.parkedAt = site
+	t.running.Store(false)
 	s.mu.Lock()
 	s.parkCount++
 	t.parkSeq = s.parkCount
@@ -276,8 +387,11 @@ func Point(site string) {
 	if t == nil {
 		return
 	}
-	s.Stmts.Add(1)
-	if s.cur.Load() == t && t.budget > 0 {
+	if s.cfg.CoRelease {
+		if t.running.Load() {
+			return // statements never preempt in co-release mode (and no shared counter is touched)
+		}
+	} else if s.Stmts.Add(1); true && s.cur.Load() == t && t.budget > 0 {
 		t.budget--
 		return
 	}
@@ -294,7 +408,7 @@ func Sync(site string) {
 	if t == nil {
 		return
 	}
-	if s.cur.Load() == t && t.sbudget > 0 && t.budget > 0 {
+	if s.hasBaton(t) && t.sbudget > 0 && t.budget > 0 {
 		t.sbudget--
 		return
 	}
@@ -313,8 +427,8 @@ func WaitUntil(site, desc string, timeout time.Duration, cond func() bool) bool 
 	if t == nil {
 		panic("simrt.WaitUntil outside a task: " + site)
 	}
-	if s.cur.Load() == t && cond() {
-		return true
+	if !s.cfg.CoRelease && s.cur.Load() == t && cond() {
+		return true // (co-release: conditions are only ever evaluated by the controller, at quiescence)
 	}
 	t.cond, t.condDesc = cond, desc
 	if timeout > 0 {
@@ -325,6 +439,23 @@ func WaitUntil(site, desc string, timeout time.Duration, cond func() bool) bool 
 	to := t.timedOut
 	t.timedOut = false
 	return !to
+}
+
+// Yield parks the calling task n times: a delay measured in scheduling rounds
+// rather than simulated time (which only advances when everything is blocked),
+// so that the caller's next action can overlap with other tasks' activity.
+func Yield(site string, n int) {
+	s := active.Load()
+	if s == nil {
+		return
+	}
+	t := s.taskOfG()
+	if t == nil {
+		return
+	}
+	for i := 0; i < n; i++ {
+		s.park(t, site)
+	}
 }
 
 // Sleep advances simulated time for the calling task.
@@ -368,7 +499,7 @@ func (s *Sim) spawn(parent *Task, site string, fn func()) *Task {
 	t := s.newTask(parent, site)
 	go func() {
 		t.g = getg()
-		s.byG.Store(t.g, t)
+		s.byG.store(t.g, t)
 		defer s.exit(t)
 		s.park(t, "spawn:"+site)
 		fn()
@@ -384,7 +515,7 @@ func (s *Sim) exit(t *Task) {
 		}
 	}
 	t.done = true
-	s.byG.Delete(t.g)
+	s.byG.remove(t.g)
 	select {
 	case s.wake <- struct{}{}:
 	default:
@@ -432,7 +563,7 @@ func Run(cfg Config, tapes *Tapes, main func()) (*Sim, *Outcome) {
 	root := s.newTask(nil, "main")
 	go func() {
 		root.g = getg()
-		s.byG.Store(root.g, root)
+		s.byG.store(root.g, root)
 		defer s.exit(root)
 		s.park(root, "spawn:main")
 		main()
@@ -515,12 +646,59 @@ func Run(cfg Config, tapes *Tapes, main func()) (*Sim, *Outcome) {
 			continue
 		}
 		idle, quantum = 0, time.Millisecond
+		if cfg.CoRelease {
+			// a tape-chosen non-empty subset runs concurrently this round
+			var set []*Task
+			for _, t := range elig {
+				if s.Tapes.Choose("sch", 2) == 0 {
+					set = append(set, t)
+				}
+			}
+			if len(set) == 0 {
+				set = append(set, elig[s.Tapes.Choose("sch", len(elig))])
+			}
+			for _, t := range set {
+				t.budget = inf
+				t.sbudget = [...]int64{inf, 0, 1, 3, 8}[s.Tapes.Choose("sch", 5)]
+			}
+			s.Steps++
+			if len(set) > 1 {
+				s.Switches += int64(len(set))
+			}
+			for _, t := range set {
+				s.logAs(t.ID, "corun", t.parkedAt)
+				s.mu.Lock()
+				for i, p := range s.parked {
+					if p == t {
+						s.parked = append(s.parked[:i], s.parked[i+1:]...)
+						break
+					}
+				}
+				s.mu.Unlock()
+				t.running.Store(true)
+			}
+			for _, t := range set {
+				t.resume <- struct{}{}
+			}
+			continue
+		}
 		s.release(s.pick(elig))
 	}
 	out.Steps, out.Switches, out.Stmts = s.Steps, s.Switches, s.Stmts.Load()
 	out.SimTime = s.Now()
 	out.Fingerprint, out.Interleave = s.hash, s.ilHash
 	out.Tasks = len(s.tasks)
+	if cfg.CoRelease {
+		for _, t := range s.tasks {
+			for k, v := range t.probes {
+				if strings.HasPrefix(k, "fault:") {
+					s.Faults[k[6:]] += v
+				} else {
+					s.Probes[k] += v
+				}
+			}
+		}
+	}
 	s.stopping.Store(true)
 	return s, out
 }
@@ -678,6 +856,12 @@ func CallerSite(skip int) string {
 
 // NextID hands out small deterministic identifiers (locks, streams) per run.
 func (s *Sim) NextID() int {
+	if s.cfg.CoRelease {
+		if t := s.taskOfG(); t != nil {
+			t.idSeq++
+			return t.ID*1000 + t.idSeq
+		}
+	}
 	s.idSeq++
 	return s.idSeq
 }
